@@ -163,6 +163,48 @@ Proof.
   split; [reflexivity | exact E4].
 Qed.
 
+(* what is relevant is delivered: a transaction of the block that pays a
+   watched script or spends a watched outpoint (watched when the block is
+   looked at, or created by an earlier transaction of the same block) is in
+   the result of [scan], whatever the watch list looks like - several
+   addresses of one key are several scripts, repeated entries change nothing *)
+Definition pays_or_spends (x : swatch) (t : tx) : Prop :=
+  (exists sc, In sc (touts t) /\ In sc (fst x)) \/
+  (exists i, In i (tins t) /\ In (fst i) (snd x)).
+
+Lemma paid_nonempty : forall A tid outs i sc, In sc outs -> In sc A -> paid A tid i outs <> [].
+Proof.
+  induction outs as [|s0 r IH]; intros i sc Ho Ha; cbn [paid]; [destruct Ho|].
+  destruct Ho as [->|Ho].
+  - apply memN_In in Ha. rewrite Ha. discriminate.
+  - intros E. apply app_eq_nil in E. destruct E as [_ E]. exact (IH _ _ Ho Ha E).
+Qed.
+
+Lemma scan_tx_relevant : forall x t, pays_or_spends x t -> fst (scan_tx x t) = true.
+Proof.
+  intros x t [(sc & Ho & Ha)|(i & Hi & Hw)]; unfold scan_tx; cbn [fst].
+  - apply orb_true_iff. right. pose proof (paid_nonempty (fst x) (txid t) (touts t) 0%N sc Ho Ha) as P.
+    destruct (paid (fst x) (txid t) 0%N (touts t)); [congruence | reflexivity].
+  - apply orb_true_iff. left. apply existsb_exists. exists i. split; [exact Hi | apply mem_op_In; exact Hw].
+Qed.
+
+Lemma scan_tx_grows : forall x t u, pays_or_spends x u -> pays_or_spends (snd (scan_tx x t)) u.
+Proof.
+  intros x t u [H|(i & Hi & Hw)]; unfold scan_tx; cbn [snd]; [left; exact H|].
+  right. exists i. split; [exact Hi|]. cbn [snd]. apply in_or_app. left. exact Hw.
+Qed.
+
+Lemma scan_delivers : forall txs x t, In t txs -> pays_or_spends x t -> In (txid t) (fst (scan x txs)).
+Proof.
+  induction txs as [|a r IH]; intros x t Hin Hp; [destruct Hin|]. cbn [scan].
+  pose proof (scan_tx_relevant x a) as R. pose proof (scan_tx_grows x a t Hp) as Gr.
+  destruct (scan_tx x a) as [rel x1]. cbn [fst snd] in *.
+  specialize (IH x1 t). destruct (scan x1 r) as [l x2]. cbn [fst] in *.
+  apply in_or_app. destruct Hin as [->|Hin].
+  - left. rewrite (R Hp). left. reflexivity.
+  - right. apply IH; assumption.
+Qed.
+
 (* the items of a list of updates, as a watch state *)
 Definition qitems (q : list update) : swatch :=
   (flat_map uaddrs q, flat_map (fun u => map fst (uinputs u)) q).
